@@ -104,13 +104,13 @@ def rand_prob(rng, ai, bi, kind):
     return (w / m).reshape(ai, bi).astype(float)
 
 
-def rand_pred(rng, shape, kind):
+def rand_pred(rng, shape, kind, dens_hi=0.7):
     if kind == "frac":
         den = int(rng.choice([2, 4, 8]))
         p = rng.integers(0, den + 1, size=shape) / den
         p = p * (rng.random(size=shape) < rng.uniform(0.4, 1.0))
         return p.astype(float)
-    dens = rng.uniform(0.15, 0.7)
+    dens = rng.uniform(0.15, dens_hi)
     return (rng.random(size=shape) < dens).astype(float)
 
 
@@ -120,6 +120,20 @@ def mod_game(ao, bo, ai, bi):
     pred = np.zeros((ao, bo, ai, bi))
     for a, b, x, y in itertools.product(range(ao), range(bo), range(ai), range(bi)):
         if (a + b) % k == (x * y) % k:
+            pred[a, b, x, y] = 1
+    return pred
+
+
+def xor_game(rng, shape):
+    """win iff the parity of a + b equals a random bit table f(x, y) (CHSH-like; typically classical < quantum < NS)"""
+    ao, bo, ai, bi = shape
+    while True:
+        f = rng.integers(0, 2, size=(ai, bi))
+        if f.min() != f.max():
+            break
+    pred = np.zeros(shape)
+    for a, b, x, y in itertools.product(range(ao), range(bo), range(ai), range(bi)):
+        if (a + b) % 2 == f[x, y]:
             pred[a, b, x, y] = 1
     return pred
 
@@ -365,7 +379,7 @@ def _sdp_worker(task):
                 if op == "classical":
                     v = game.classical_value()
                 elif op == "quantum_lb":
-                    v = game.quantum_value_lower_bound(dim=2, iters=task.get("iters", 1))
+                    v = game.quantum_value_lower_bound(dim=2, iters=task.get("iters", 2))
                 elif op == "nonsignaling":
                     v = game.nonsignaling_value()
                 else:
@@ -389,7 +403,7 @@ def _tol(solvers):
     return TOL_SCS if any("SCS" in s.upper() for s in solvers) else TOL_IP
 
 
-def _mk_task(prob, pred, reps, ops, seed, kind, iters=1):
+def _mk_task(prob, pred, reps, ops, seed, kind, iters=2):
     return {"prob": np.asarray(prob, dtype=float).reshape(-1).tolist(), "pshape": list(np.shape(prob)),
             "pred": np.asarray(pred, dtype=float).reshape(-1).tolist(), "shape": list(np.shape(pred)),
             "reps": reps, "ops": list(ops), "seed": int(seed), "kind": kind, "iters": iters}
@@ -466,8 +480,12 @@ def judge(ctx, task, res):
             ctx.violation(f"nonsignaling_value = {v} > 1", {"function": "nonsignaling_value", **info0, "theorem": "ordering chain"})
     if "classical" in first and first["classical"][0] > 1:
         ctx.violation(f"classical_value = {first['classical'][0]} > 1", {"function": "classical_value", **info0, "theorem": "classical_le_one"})
-    if "classical" in first and "quantum_lb" in first and first["quantum_lb"][0] > first["classical"][0] + 1e-4:
+    if "classical" in first and "quantum_lb" in first and first["quantum_lb"][0] > first["classical"][0] + 2e-3:
         ctx.count("chain/instances-with-quantum-advantage")
+    if "npa2" in first and "nonsignaling" in first and first["npa2"][0] < first["nonsignaling"][0] - 2e-3:
+        ctx.count("chain/instances-with-npa2<ns-strictly")
+    if "npa1" in first and "npa2" in first and first["npa2"][0] < first["npa1"][0] - 2e-3:
+        ctx.count("chain/instances-with-npa2<npa1-strictly")
 
 
 CHAIN_SHAPES = [(2, 2, 2, 2)] * 4 + [(2, 3, 2, 2), (3, 2, 2, 2), (2, 2, 3, 2), (2, 2, 2, 3), (2, 3, 3, 2), (3, 2, 2, 3), (2, 3, 2, 3), (3, 2, 3, 2)]
@@ -494,14 +512,21 @@ def sdp_tasks(ctx, quick):
         shape = CHAIN_SHAPES[int(rng.integers(len(CHAIN_SHAPES)))]
         kind = str(rng.choice(["01", "01", "frac", "rational"]))
         prob = rand_prob(rng, shape[2], shape[3], kind)
-        pred = rand_pred(rng, shape, "frac" if kind == "frac" else "01")
-        if rng.integers(4) == 0:
+        pred = rand_pred(rng, shape, "frac" if kind == "frac" else "01", 0.45)
+        r = int(rng.integers(4))
+        if r == 0:
             pred = mod_game(*shape) * (rng.random(size=shape) < 0.9)
+        elif r == 1:
+            pred = xor_game(rng, shape)
         add(prob, pred, 1, OPS, "chain")
+    # parallel repetition (product alphabets of size 4; NPA level 2 takes about a minute there: thorough only)
+    guess = np.zeros((2, 2, 2, 1))
+    for a in range(2):
+        guess[a, a, a, 0] = 1  # both must answer Alice's question; Bob has to guess it
+    guess[1, 0, 0, 0] = .5
+    add(np.array([[.75], [.25]]), guess, 2, OPS if not quick else OPS[:5], "chain")
     if not quick:
-        # parallel repetition (product alphabets of size 4)
-        add(np.array([[.5], [.5]]), mod_game(2, 2, 2, 1) * np.array([1, .5]).reshape(1, 1, 2, 1), 2, OPS, "chain")
-        add(np.array([[.5, .5]]), rand_pred(rng, (2, 2, 1, 2), "01"), 2, OPS, "chain")
+        add(np.array([[.5, .5]]), rand_pred(rng, (2, 2, 1, 2), "01", 0.5), 2, OPS, "chain")
     # histories: random orders with repetitions
     n_hist = 14 if quick else 100
     for _ in range(n_hist):
@@ -576,5 +601,5 @@ def replay(ctx, rec):
         shape = tuple(a["shape"])
         prob = np.array([float(_frac(x)) for x in a["prob"]]).reshape(shape[2], shape[3])
         pred = np.array([float(_frac(x)) for x in a["pred"]]).reshape(shape)
-        task = _mk_task(prob, pred, a["reps"], a["ops"], a["seed"], fn, a.get("iters", 1))
+        task = _mk_task(prob, pred, a["reps"], a["ops"], a["seed"], fn, a.get("iters", 2))
         run_sdp(ctx, [task])
